@@ -400,6 +400,15 @@ def predicates(ctx: Ctx) -> None:
                             "inversion": inversion, "rigid_copy": same}, True)
             w = coords.atom_weights.astype(float) if weighted else None
             check_alignment(ctx, sim, coords, labels, other, f"cluster-{n}", same, w)
+        # genuinely different structures with inversion allowed: the best alignment then often comes from a
+        # restart of the INVERTED structure, and distance / copy / permutation must still belong together
+        for _ in range(ctx.scale(10, 40) * deep):
+            n = rng.randrange(6, 11)
+            labels = [rng.choice(["Au", "Ag"]) for _ in range(n)]
+            sim = make_sim(0.1, False, True)
+            ctx.stats.case({"pred": "different-structures-inversion", "n": n}, True)
+            check_alignment(ctx, sim, AtomicCoordinates(labels, cluster(rng, n).flatten().copy()), labels,
+                            cluster(rng, n).flatten(), f"different-{n}", False)
         # larger generic clusters: here the 150 random restarts cannot rescue a broken identity test, so
         # the deterministic path (furthest atoms + Kabsch + Hungarian) must itself recognise the copy
         for _ in range(ctx.scale(60, 300) * deep):
